@@ -76,3 +76,34 @@ Theorem C02_rt_split_uniform_merge1_depth : forall d step t, 0 < step ->
   at_depth d (fiber_ok (fun l => int_sorted l /\ nonneg_keys l)) t ->
   exists t', tmap_depth d (split_uniform step 0 0) t = Some t' /\ tmap_depth d merge1 t' = Some t.
 Proof. exact split_uniform_merge1_depth. Qed.
+
+(* ---- the loop nest over shape-partitioned tensors (Model/Nest.v, Model/NestPart.v) ----
+   For ANY loop order L' over the levels and the other ranks (any L' well-formed for the partitioned tensors - interleaved
+   with other ranks, inner level before outer level, ...), ANY step, ANY tries: the nest over the tensors in which rank r
+   was split into (r1, r0) contributes, at every point whose upper coordinate is the bucket of its lower coordinate,
+   exactly what the Einsum defines at the original point (r := the lower coordinate), and nothing elsewhere; every original
+   point is represented by exactly one such point.  The second theorem composes it for a two-level stack on one rank. *)
+Require TV.Model.Nest TV.Model.NestPart TV.Proofs.NestPartProofs.
+
+Theorem C02_partitioned_nest_sound_partial : forall r r1 r0 s tms L',
+  (forall tm t, In tm tms -> In t tm -> NoDup (Nest.rem t)) ->
+  (forall tm, In tm tms -> existsb (NestPart.holds r) tm = true) ->
+  Nest.wf L' (NestPart.part_terms r r1 r0 s tms) ->
+  forall p, Nest.sum_at p (Nest.run L' (NestPart.part_terms r r1 r0 s tms)) =
+            if NestPart.consistent r1 r0 s p then Nest.body_den tms (NestPart.collapse r r0 p) else 0.
+Proof. exact NestPartProofs.partitioned_nest_sound. Qed.
+
+Theorem C02_partitioned_point_unique : forall r1 r0 s (p : Nest.point) u, 0 < s ->
+  NestPart.consistent r1 r0 s (Nest.upd p r1 u) = true -> r1 <> r0 -> u = NestPart.bucket s (p r0).
+Proof. exact NestPartProofs.consistent_unique. Qed.
+
+Theorem C02_partitioned_nest_two_levels_partial : forall r r2 rx r1 r0 s2 s1 tms L',
+  (forall tm t, In tm tms -> In t tm -> NoDup (Nest.rem t) /\ ~ In r2 (Nest.rem t) /\ ~ In rx (Nest.rem t)) ->
+  r2 <> rx ->
+  (forall tm, In tm tms -> existsb (NestPart.holds r) tm = true) ->
+  let tms1 := NestPart.part_terms r r2 rx s2 tms in
+  Nest.wf L' (NestPart.part_terms rx r1 r0 s1 tms1) ->
+  forall p, Nest.sum_at p (Nest.run L' (NestPart.part_terms rx r1 r0 s1 tms1)) =
+            if andb (NestPart.consistent r1 r0 s1 p) (NestPart.consistent r2 rx s2 (NestPart.collapse rx r0 p))
+            then Nest.body_den tms (NestPart.collapse r rx (NestPart.collapse rx r0 p)) else 0.
+Proof. exact NestPartProofs.partitioned_nest_sound_2. Qed.
